@@ -133,6 +133,29 @@ function genSem(rng, params) {
     const src = ds.map(tsOfDecl).join("\n") + `\nparse.buildParsers<{ R: Exclude<${tsOf(a)}, ${tsOf(b)}> }>();\n`;
     return [A("sem"), A(String(counter++)), [A("prog"), ds, [["R", [A("exclude"), a, b]]]], [["entry.ts", src]], vals.map(encVal)];
   }
+  if (rng.chance(1, 8)) {
+    // operators over an intersection of unions that SHARE named object types (`(Bird | Cat | Dog) & (Cat | Fish)`): both
+    // diagrams hold the same atom (a name has one atom), the arm of the diagram meet that inline types never reach
+    const pool4 = ["Bird", "Cat", "Dog", "Fish"];
+    const mk = (n) => [A("alias"), n, [], [A("obj"), [["kind", A("false"), lit("s", n.toLowerCase())], [n[0].toLowerCase(), A("false"), A("string")]], A("none")]];
+    const order = pool4.slice(); for (let i = order.length - 1; i > 0; i--) { const j = rng.below(i + 1); [order[i], order[j]] = [order[j], order[i]]; }
+    const ds = [...decls.filter((d) => !pool4.includes(d[1])), ...order.map(mk)];
+    const r = (n) => [A("ref"), n];
+    const sub = (k) => { const s = pool4.filter(() => rng.chance(1, 2)); while (s.length < k) { const n = rng.pick(pool4); if (!s.includes(n)) s.push(n); } for (let i = s.length - 1; i > 0; i--) { const j = rng.below(i + 1); [s[i], s[j]] = [s[j], s[i]]; } return s; };
+    const s1 = sub(2), s2 = sub(2);
+    if (!s1.some((n) => s2.includes(n))) s2.push(s1[rng.below(s1.length)]);
+    const u = (s) => (s.length === 1 ? r(s[0]) : [A("union"), ...s.map(r)]);
+    const inter = [A("inter"), u(s1), u(s2)];
+    const p2 = [A("prog"), ds, []];
+    const op = rng.below(3);
+    let e2, t2;
+    if (op === 0) { const k = lit("s", "kind"); e2 = [A("idx"), inter, k]; t2 = `(${tsOf(inter)})[${tsOf(k)}]`; }
+    else if (op === 1) { const b = rng.chance(1, 2) ? r(rng.pick(pool4)) : u(sub(1)); e2 = [A("exclude"), inter, b]; t2 = `Exclude<${tsOf(inter)}, ${tsOf(b)}>`; }
+    else { const b = r(rng.pick(s1)); e2 = [A("exclude"), u(s1), [A("inter"), u(s2), b]]; t2 = `Exclude<${tsOf(u(s1))}, ${tsOf(e2[2])}>`; }
+    const vals = semValues(rng, p2, [...pool4.map(r), A("string")], Number(params[0] || 10));
+    const src = ds.map(tsOfDecl).join("\n") + `\nparse.buildParsers<{ R: ${t2} }>();\n`;
+    return [A("sem"), A(String(counter++)), [A("prog"), ds, [["R", e2]]], [["entry.ts", src]], vals.map(encVal)];
+  }
   if (kind === 0) { // Exclude<A, B>: A a union, B one of its members / a widening / a literal subset / unrelated
     // (sometimes a tuple whose rest is `unknown` / `any`: the `any[]` shortcut of the materialisation must keep the prefix)
     const anyRest = () => [A("tuple"), Array.from({ length: 1 + rng.below(2) }, () => genLeaf(rng)), A(rng.pick(["unknown", "any"]))];
